@@ -269,3 +269,5 @@ func runEnum(t *testing.T, id string, each func(yield func(*core.Case) bool)) {
 		return true
 	})
 }
+
+func nan() float64 { var z float64; return z / z }
